@@ -64,10 +64,24 @@ func (nz *normalizer) unrollTables(p *packages.Package, f *ast.File, fd *ast.Fun
 			if _, isSig := elem.Underlying().(*types.Signature); !isSig {
 				continue
 			}
-			var lits []*ast.FuncLit
+			// elements: function literals, or method values / function names whose receiver is never reassigned
+			var lits []ast.Expr
 			for _, e := range cl.Elts {
-				if lit, ok := ast.Unparen(e).(*ast.FuncLit); ok {
-					lits = append(lits, lit)
+				switch x := ast.Unparen(e).(type) {
+				case *ast.FuncLit:
+					lits = append(lits, x)
+				case *ast.Ident:
+					if _, isFn := p.TypesInfo.Uses[x].(*types.Func); isFn {
+						lits = append(lits, x)
+					}
+				case *ast.SelectorExpr:
+					if _, isFn := p.TypesInfo.Uses[x.Sel].(*types.Func); isFn {
+						if id, ok := x.X.(*ast.Ident); ok {
+							if _, isPkg := p.TypesInfo.Uses[id].(*types.PkgName); isPkg || nz.neverReassigned(p.TypesInfo, fd, p.TypesInfo.Uses[id]) {
+								lits = append(lits, x)
+							}
+						}
+					}
 				}
 			}
 			if len(lits) != len(cl.Elts) {
@@ -187,7 +201,47 @@ func (nz *normalizer) unrollTables(p *packages.Package, f *ast.File, fd *ast.Fun
 					}
 					rewrite(body, false)
 				}
-				stmts := append([]ast.Stmt{&ast.AssignStmt{Lhs: []ast.Expr{ast.NewIdent(v.Name)}, Tok: token.DEFINE, Rhs: []ast.Expr{lit}}}, body.List...)
+				var stmts []ast.Stmt
+				if _, isLit := lit.(*ast.FuncLit); isLit {
+					stmts = append([]ast.Stmt{&ast.AssignStmt{Lhs: []ast.Expr{ast.NewIdent(v.Name)}, Tok: token.DEFINE, Rhs: []ast.Expr{lit}}}, body.List...)
+				} else {
+					// a named function or method value: the copy calls it by name (the variable must be used as a callee only)
+					calleeSrc := bytes.Buffer{}
+					printer.Fprint(&calleeSrc, p.Fset, lit)
+					okUse := true
+					callees := map[*ast.Ident]bool{}
+					ast.Inspect(body, func(m ast.Node) bool {
+						if c, ok := m.(*ast.CallExpr); ok {
+							if id, ok := c.Fun.(*ast.Ident); ok && id.Name == v.Name {
+								callees[id] = true
+							}
+						}
+						return true
+					})
+					ast.Inspect(body, func(m ast.Node) bool {
+						if id, ok := m.(*ast.Ident); ok && id.Name == v.Name && !callees[id] {
+							okUse = false
+						}
+						return true
+					})
+					if !okUse || len(callees) == 0 {
+						failed = true
+						break
+					}
+					ast.Inspect(body, func(m ast.Node) bool {
+						if c, ok := m.(*ast.CallExpr); ok {
+							if id, ok := c.Fun.(*ast.Ident); ok && callees[id] {
+								if e, err := parser.ParseExpr(calleeSrc.String()); err == nil {
+									c.Fun = e
+								} else {
+									failed = true
+								}
+							}
+						}
+						return true
+					})
+					stmts = body.List
+				}
 				_ = k
 				if hasContinue {
 					copies = append(copies, &ast.LabeledStmt{Label: ast.NewIdent(label), Stmt: &ast.SwitchStmt{Body: &ast.BlockStmt{List: []ast.Stmt{&ast.CaseClause{Body: stmts}}}}})
@@ -208,6 +262,101 @@ func (nz *normalizer) unrollTables(p *packages.Package, f *ast.File, fd *ast.Fun
 			nlog("unrolled table %s (%d function literals) in %s", id.Name, len(lits), fd.Name.Name)
 			i--
 		}
+		return true
+	})
+}
+
+// loopHeaderCalls rewrites `for x := h(a); cond; x = h(a) { body }` (the same helper call in the init and the post
+// statement) into `for { x := h(a); if !(cond) { break }; body }`: the call runs before every test of cond, a `continue`
+// reaches it again, and a `break` leaves as before. Only for calls of helpers the normaliser inlines.
+func (nz *normalizer) loopHeaderCalls(p *packages.Package, f *ast.File, fd *ast.FuncDecl) {
+	if p.TypesInfo == nil {
+		return
+	}
+	render := func(n ast.Node) string {
+		var b bytes.Buffer
+		printer.Fprint(&b, p.Fset, n)
+		return b.String()
+	}
+	ast.Inspect(fd.Body, func(n ast.Node) bool {
+		fs, ok := n.(*ast.ForStmt)
+		if ok && fs.Post == nil && fs.Cond != nil {
+			// `for cond-with-helper-call { body }` → `for { if !(cond) { break }; body }` (a continue re-evaluates cond as before)
+			hasHelper := false
+			ast.Inspect(fs.Cond, func(m ast.Node) bool {
+				if _, isLit := m.(*ast.FuncLit); isLit {
+					return false
+				}
+				if c, ok := m.(*ast.CallExpr); ok {
+					if h, _ := nz.calleeOf(p, c); h != nil {
+						hasHelper = true
+					}
+				}
+				return true
+			})
+			if hasHelper {
+				guard := &ast.IfStmt{Cond: &ast.UnaryExpr{Op: token.NOT, X: &ast.ParenExpr{X: fs.Cond}}, Body: &ast.BlockStmt{List: []ast.Stmt{&ast.BranchStmt{Tok: token.BREAK}}}}
+				fs.Body.List = append([]ast.Stmt{guard}, fs.Body.List...)
+				fs.Cond = nil
+				nz.changed[f] = p
+				nz.unrolled++
+				nlog("helper call in the condition of a loop in %s moved into the body", fd.Name.Name)
+			}
+			return true
+		}
+		if !ok || fs.Init == nil || fs.Post == nil || fs.Cond == nil {
+			return true
+		}
+		ini, ok1 := fs.Init.(*ast.AssignStmt)
+		post, ok2 := fs.Post.(*ast.AssignStmt)
+		if !ok1 || !ok2 || ini.Tok != token.DEFINE || post.Tok != token.ASSIGN || len(ini.Rhs) != 1 || len(post.Rhs) != 1 || len(ini.Lhs) != len(post.Lhs) {
+			return true
+		}
+		call, ok := ini.Rhs[0].(*ast.CallExpr)
+		if !ok {
+			return true
+		}
+		if h, _ := nz.calleeOf(p, call); h == nil {
+			return true
+		}
+		if render(ini.Rhs[0]) != render(post.Rhs[0]) {
+			return true
+		}
+		for i := range ini.Lhs {
+			a, ok1 := ini.Lhs[i].(*ast.Ident)
+			b, ok2 := post.Lhs[i].(*ast.Ident)
+			if !ok1 || !ok2 || a.Name != b.Name {
+				return true
+			}
+		}
+		// a labelled continue/break naming this loop from inside is fine (the label stays on the statement); a closure
+		// capturing the loop variables would see one variable per iteration instead of one per loop: leave those alone
+		captured := false
+		ast.Inspect(fs.Body, func(m ast.Node) bool {
+			if lit, ok := m.(*ast.FuncLit); ok {
+				ast.Inspect(lit, func(k ast.Node) bool {
+					if id, ok := k.(*ast.Ident); ok {
+						for _, l := range ini.Lhs {
+							if p.TypesInfo.Uses[id] != nil && p.TypesInfo.Uses[id] == p.TypesInfo.Defs[l.(*ast.Ident)] {
+								captured = true
+							}
+						}
+					}
+					return true
+				})
+				return false
+			}
+			return true
+		})
+		if captured {
+			return true
+		}
+		guard := &ast.IfStmt{Cond: &ast.UnaryExpr{Op: token.NOT, X: &ast.ParenExpr{X: fs.Cond}}, Body: &ast.BlockStmt{List: []ast.Stmt{&ast.BranchStmt{Tok: token.BREAK}}}}
+		fs.Body.List = append([]ast.Stmt{ini, guard}, fs.Body.List...)
+		fs.Init, fs.Cond, fs.Post = nil, nil, nil
+		nz.changed[f] = p
+		nz.unrolled++
+		nlog("helper call in the header of a loop in %s moved into the body", fd.Name.Name)
 		return true
 	})
 }
